@@ -124,3 +124,19 @@ func verifLemma_C11_feature_block_header(h FeatureBlockHeader) {
 	verifrt.Assert(n == FeatureBlockHeaderLength && m == n, "consumes-what-was-written")
 	verifrt.Assert(got == h, "value")
 }
+
+// ---- C31: the compact order agrees with FeatureID.Less --------------------------------
+// Compact IDs are ordered by (type<<13 | namespace index, value). With namespace
+// indices below 2^13 and types below 8 this is the lexicographic order on
+// (type, namespace index, value): it agrees with b6.FeatureID.Less exactly when the
+// namespace table is order preserving (NamespaceTable.FillFromNamespaces sorts the
+// names; that leg is not part of this lemma).
+func verifLemma_C31_compact_order(t1, t2 b6.FeatureType, n1, n2 Namespace, v1, v2 uint64) {
+	verifrt.Assume(t1 >= 0 && t1 < 8 && t2 >= 0 && t2 < 8 && n1 < 1<<13 && n2 < 1<<13)
+	c1, c2 := CombineTypeAndNamespace(t1, n1), CombineTypeAndNamespace(t2, n2)
+	compactLess := c1 < c2 || (c1 == c2 && v1 < v2)
+	lexLess := t1 < t2 || (t1 == t2 && (n1 < n2 || (n1 == n2 && v1 < v2)))
+	verifrt.Assert(compactLess == lexLess, "compact-order-is-lexicographic")
+	rs := References{{TypeAndNamespace: c1, Value: v1}, {TypeAndNamespace: c2, Value: v2}}
+	verifrt.Assert(rs.Less(0, 1) == lexLess, "references-less-agrees")
+}
